@@ -84,3 +84,31 @@ func isValueType(vt wasm.ValueType) bool {
 //@     invariant len(sig.Params) == len(typ.Params)+2 && len(sig.Results) == len(typ.Results) && sig.Params[0] == ssa.TypeI64 && sig.Params[1] == ssa.TypeI64 && verif_fresh_slice(sig.Params) && verif_fresh_slice(sig.Results)
 //@     invariant forall i int :: 0 <= i && i < len(typ.Params) ==> sig.Params[i+2] == ssaTypeOf(typ.Params[i])
 //@     invariant forall i int :: 0 <= i && i <= rangeindex && i < len(typ.Results) ==> sig.Results[i] == ssaTypeOf(typ.Results[i])
+
+// ---- C02: the bounds check the compiler emits for a load/store (memOpSetup). Ghost registers kept by the
+// assumed ssa.Builder contract (package ssa) record the instructions as they are inserted.
+func oobChecks() int { return verif_ghost_int("oobChecks") }
+func knownBoundOf(c *Compiler, v ssa.Value) uint64 {
+	id := v.ID()
+	if int(id) >= len(c.knownSafeBounds) {
+		return 0
+	}
+	return c.knownSafeBounds[id].bound
+}
+
+//@ prop C02
+// (inserts the loads of the memory length / base or reuses an earlier value: assumed not to disturb the
+// registers of the check being built; the value it returns is recorded as THE memory length)
+//@ func (c *Compiler) getMemoryLenValue(forceReload bool) ssa.Value
+//@   trusted
+//@   ensures verif_ghost_int("memLenVal") == int(r0)
+//@   modifies ghost("memLenVal")
+//@ func (c *Compiler) getMemoryBaseValue(forceReload bool) ssa.Value
+//@   trusted
+//@   modifies nothing
+
+//@ func (c *Compiler) memOpSetup(baseAddr ssa.Value, constOffset, operationSizeInBytes uint64) (address ssa.Value)
+//@   requires c.ssaBuilder != nil && constOffset < 1<<33 && operationSizeInBytes <= 16
+//@   ensures[checked-unless-known-safe] oobChecks() == old(oobChecks()) + 1 || (oobChecks() == old(oobChecks()) && old(knownBoundOf(c, baseAddr)) >= constOffset+operationSizeInBytes)
+//@   ensures[the-check-covers-the-access] oobChecks() != old(oobChecks()) ==> verif_ghost_int("oobArg") == int(baseAddr) && verif_ghost_int("oobCeil") == int(constOffset+operationSizeInBytes) && verif_ghost_int("oobLen") == verif_ghost_int("memLenVal")
+//@   nosafety keep-pre
